@@ -319,7 +319,7 @@ def replay(ctx, case):
     check_case(ctx, case, minimize=False)
 
 
-FRAGS = ["*e*", "**s**", "_u_", "~~d~~", "`c`", "`` a`b ``", "[l](u)", "[l](u \"t\")", "![i](s)", "![a *b*](s 't')", "&amp;", "&#35;", "&copy;", "\\*", "\\\\", "<b>", "</b>",
+FRAGS = ["![a&amp;b](u)", "![x\\*y z](s)", "![p &#35; q *r*](s 't')", "[l &copy; m](u)", "*e*", "**s**", "_u_", "~~d~~", "`c`", "`` a`b ``", "[l](u)", "[l](u \"t\")", "![i](s)", "![a *b*](s 't')", "&amp;", "&#35;", "&copy;", "\\*", "\\\\", "<b>", "</b>",
          "<!-- c -->", "<http://a.b>", "<m@n.o>", "x", "y z", "é", "1", "a_b_c", "\"q\"", "'s'", "--", "...", "(c)", "http://x.y/z", "www.a.bc", "[r]", "!", "(", ")", "[", "]",
          "*", "_", "`", "~", "|", "#", "\\", "&", "<", ">", "+", "=", ":",
          # characters that str.splitlines()/str.isspace() single out but Markdown treats as ordinary text
